@@ -306,6 +306,24 @@ class Interp:
         self.tsolver += time.time() - t0
         return r, m
 
+    def enumerate_int(self, e, lo, hi_cap, limit=24):
+        """feasible values of an integer term under the current guard and assumptions: [(cond, value)]; values above
+        hi_cap are folded into one case (cond: e >= hi_cap, value hi_cap)"""
+        e = z3.simplify(e)
+        if z3.is_int_value(e):
+            return [(True, e.as_long())]
+        out = []
+        for v in range(lo, hi_cap):
+            c = e == v
+            if self.feasible(c):
+                out.append((c, v))
+            if len(out) > limit:
+                raise Unsupported("too many feasible values of a symbolic size")
+        c = e >= hi_cap
+        if self.feasible(c):
+            out.append((c, hi_cap))
+        return out
+
     def reachable(self, lst):
         """entries of a (cond, msg) list that are satisfiable under the assumptions"""
         out = []
@@ -845,6 +863,17 @@ class Interp:
                 en, idx = self.variants[name][0]
                 vv = self.deref(v)
                 return self.tag_eq(vv, idx)
+            for cand in (v, Rf(place) if place is not None else None):
+                # `let x = x.lock().unwrap();` — a reference to the variable it shadows: keep the old value under a hidden name
+                if isinstance(cand, Rf) and cand.place.scope is sc and cand.place.var == name and name in sc.vars:
+                    self.fresh_n += 1
+                    hidden = "__shadowed_%s_%d" % (name, self.fresh_n)
+                    sc.vars[hidden] = sc.vars[name]
+                    moved = Rf(Place(sc, hidden, cand.place.path))
+                    if cand is v:
+                        v = moved
+                    else:
+                        place = moved.place
             if is_some(pat.get("by_ref")) and is_some(pat.get("mutability")) and place is not None:
                 sc.vars[name] = Rf(place)
             elif place is not None and isinstance(v, Rf):
